@@ -81,6 +81,25 @@ func genEcScalar(r *rand.Rand, alg int) *ecKey {
 
 func (k *ecKey) size() int { return (k.curve.Params().BitSize + 7) / 8 }
 
+// coordSeq: one counter per member (d, x, y): every fifth value of each member comes as key.ByteStr, every seventh as
+// another named byte-slice type, whatever the seed (the random draw is kept so that the stream of choices is unchanged)
+var coordSeq = map[string]int{}
+
+func coordOf(member string, r *rand.Rand, v *big.Int, size int, mode int) string {
+	coordSeq[member]++
+	n := coordSeq[member]
+	s := coord(r, v, size, mode)
+	if i := strings.IndexByte(s, ':'); i >= 0 {
+		switch {
+		case n%5 == 3:
+			return "bs" + s[i:]
+		case n%7 == 5:
+			return "bx" + s[i:]
+		}
+	}
+	return s
+}
+
 func coord(r *rand.Rand, v *big.Int, size int, mode int) string {
 	pfx := "b:"
 	switch r.Intn(8) {
@@ -123,14 +142,14 @@ func (k *ecKey) tokens(r *rand.Rand, form int, extra []string) string {
 	// form: 0 d only, 1 d+x+y, 2 x+y, 3 x + sign bit (compressed), 4 d + x + sign bit
 	if form <= 1 || form == 4 {
 		dm := r.Intn(2)
-		parts = append(parts, [2]string{"int:-4", coord(r, k.d, k.size(), dm)})
+		parts = append(parts, [2]string{"int:-4", coordOf("d", r, k.d, k.size(), dm)})
 	}
 	if form >= 1 {
-		parts = append(parts, [2]string{"int:-2", coord(r, k.x, k.size(), mode)})
+		parts = append(parts, [2]string{"int:-2", coordOf("x", r, k.x, k.size(), mode)})
 		if form == 3 || form == 4 {
 			parts = append(parts, [2]string{"int:-3", map[bool]string{true: "T", false: "F"}[k.y.Bit(0) == 1]})
 		} else {
-			parts = append(parts, [2]string{"int:-3", coord(r, k.y, k.size(), mode)})
+			parts = append(parts, [2]string{"int:-3", coordOf("y", r, k.y, k.size(), mode)})
 		}
 	}
 	for i := 0; i+1 < len(extra); i += 2 {
